@@ -19,6 +19,7 @@ RULE = (
     "seeded delays/hold-open/ready-shuffle/max_concurrency, and as sync functions on AsyncRunner; compared with a topological "
     "reference evaluator. A case is non-trivial when the async run had >=2 bodies in flight or the DAG has a multi-output or "
     "multi-consumer value; distinct = distinct digest of (program shape, inputs, observed completion order)."
+    ' Also varied per case: renamed function inputs (fresh names, parallel swaps, rotations, with defaults), falsy constant outputs (0, False, "", [], None), object reuse between derivations, part of the inputs passed as keyword arguments, nodes built through the @node decorator, plain functions returning coroutines, and two extra runs with max_iterations equal to the exact number of steps the DAG needs.'
 )
 ASSUMPTIONS = [
     "node functions are pure and total; values are 40-bit hashes so value collisions are negligible",
